@@ -46,9 +46,10 @@ ASSUMPTIONS = [
     "harness processes run with DECIMALFP_FORCE_PYTHON_IMPL=1 (the C "
     "extension of decimalfp 0.13.0 in this sandbox corrupts the heap on "
     "9-digit decimals; see DESIGN.md section 4)",
-    "not modelled: __format__ with a spec, __repr__, pickling/copying, float "
-    "elements inside terms, datetime as validity, subclasses of concrete "
-    "quantity classes, units declared directly on Quantity",
+    "not modelled: __format__ with a spec, __repr__, pickling, float "
+    "elements inside terms, datetime as validity, a subclass quantity as the "
+    "defining quantity of a parent-type unit, multiples of units of a type "
+    "without reference unit, units declared directly on Quantity",
 ]
 
 
